@@ -1,9 +1,14 @@
 """C12 - LRUSet / LRUMap vs a reference recency list."""
 
+# the driver's sanitizer options plus a bounded quarantine: the per-block LeakSanitizer pass walks every chunk the
+# allocator still holds, and with the default 256 MB quarantine that pass grows to ~0.4 s
+_ASAN = ("abort_on_error=0:exitcode=97:detect_leaks=1:allocator_may_return_null=1:detect_stack_use_after_return=0:"
+         "handle_abort=1:symbolize=1:max_allocation_size_mb=4096:quarantine_size_mb=16")
+
 PROP = dict(
     level="exploration",
     stages=[
-        dict(name="c12_lru", src="harness/c12_lru.cc", deps=["harness/c12/lru_harness.hh"],
+        dict(name="c12_lru", src="harness/c12_lru.cc", deps=["harness/c12/lru_harness.hh"], env={"ASAN_OPTIONS": _ASAN},
              shards_quick=8, shards_thorough=16, timeout_quick=400, timeout_thorough=2400),
     ],
     rule="tbd", assumptions=[], min_evaluations_quick=1000, technique="tbd", level_text="tbd", level_note="tbd",
